@@ -66,6 +66,20 @@ theorem frame_order_as_modelled : frameSeq = [
   ("AuthCall", ["if(evm.depth > int(CallCreateDepth))", "if(value.Sign() != 0 && !evm.Context.CanTransfer(evm.StateDB, sponsor, value))", "GetNonce", "SetNonce(caller.Address(),nonce + 1)", "Snapshot", "Exist", "CreateAccount", "Transfer", "RunPrecompiledContract", "GetCode", "GetCodeHash", "run(readOnly=false)", "RevertToSnapshot[err != nil]"])
 ] := by decide
 
+/-- every way out of an entry point after its `Snapshot()`: the final `return` behind the revert
+    block, plus -- in `Call` and `AuthCall` only -- the early return for a zero-value call to a
+    non-existent non-precompile account, which has touched nothing (the model's `Entry.skip`).
+    A new early return (e.g. a precompile or empty-code branch returning on its own) skips
+    `RevertToSnapshot` and breaks this. -/
+theorem return_paths_as_modelled : returnPaths = [
+  ("Call", ["before-revert-block: return nil, gas, nil, nil [!evm.StateDB.Exist(addr) && !isPrecompile && value.Sign() == 0]", "after-revert-block: return ret, gas, logs, err []"]),
+  ("CallCode", ["after-revert-block: return ret, gas, nil, err []"]),
+  ("DelegateCall", ["after-revert-block: return ret, gas, logs, err []"]),
+  ("StaticCall", ["after-revert-block: return ret, gas, logs, err []"]),
+  ("create", ["after-revert-block: return ret, address, contract.Gas, logs, err []"]),
+  ("AuthCall", ["before-revert-block: return nil, gas, nil, nil [!evm.StateDB.Exist(addr) && !isPrecompile && value.Sign() == 0]", "after-revert-block: return ret, gas, logs, err []"])
+] := by decide
+
 theorem create_revert_condition : createRevertCond = "maxCodeSizeExceeded || (err != nil && err != ErrCodeStoreOutOfGas)" := by decide
 
 theorem read_only_guard_as_modelled : readOnlyGuard = "in.readOnly && (operation.writes || (op == CALL && stack.Back(2).Sign() != 0)) -> ErrWriteProtection" := by decide
